@@ -82,7 +82,8 @@ def parseKK : String → Option KeyKind
   | "vk" => some .vk | "u64" => some .u64 | "i64" => some .i64 | "str" => some .str
   | "bytes" => some .bytes | _ => none
 def parseVK : String → Option ValKind
-  | "u64" => some .u64 | "bytes" => some .bytes | "str" => some .str | _ => none
+  | "u64" => some .u64 | "bytes" => some .bytes | "str" => some .str
+  | "ptr" => some .ptr | "iface" => some .iface | _ => none
 
 partial def step (s : St) (line : String) : St × String :=
   let toks := (line.trimAscii.toString.splitOn " ").filter (· ≠ "")
